@@ -67,6 +67,16 @@ const PROGRAMS: &[(&str, &str, &str, &str)] = &[
      "(define c5 0)",
      "(begin (set! c5 (+ c5 1)) (if (> c5 0) (set! c5 (+ c5 2)) 'no) (let ((t (* c5 2))) (set! c5 (+ c5 t))) c5)",
      "c5"),
+    // a definition of syntax that the failing form never reaches must not take effect (nor one in a form that
+    // does not compile); when it is reached the later probes are macro uses, outside the model, and are skipped
+    ("syntax-definition-unreached",
+     "(define c7 0) (define (twice x) (* 2 x))",
+     "(begin (set! c7 (+ c7 1)) (define-syntax twice (syntax-rules () ((_ x) (quote hijacked)))) (set! c7 (+ c7 10)))",
+     "c7 (twice 4)"),
+    ("syntax-definition-in-body",
+     "(define c8 0) (define (thrice x) (* 3 x))",
+     "((lambda (a) (set! c8 (+ c8 a)) (define-syntax thrice (syntax-rules () ((_ x) (quote hijacked)))) (set! c8 (+ c8 (thrice a)))) 2)",
+     "c8 (thrice 4)"),
     ("let-family",
      "(define c6 '())",
      "(let* ((a 1) (b (+ a 1))) (letrec ((ev? (lambda (n) (if (= n 0) #t (od? (- n 1))))) (od? (lambda (n) (if (= n 0) #f (ev? (- n 1)))))) (set! c6 (cons (list a b (ev? 4)) c6)) (cond ((ev? b) (set! c6 (cons 'even c6)) 'e) (else 'o))))",
@@ -128,6 +138,7 @@ fn positions(c: &Cell, path: &mut Vec<usize>, out: &mut Vec<Vec<usize>>) {
                     }
                     return;
                 }
+                "define-syntax" => return,
                 "lambda" => {
                     out.push(path.clone());
                     for i in 2..it.len() {
